@@ -14,18 +14,18 @@ import (
 )
 
 type histCfg struct {
-	Name       string
-	Opt        worldOpt
-	Seed       string
-	Alpha      alphaOpt
-	Depth      int
-	TickChoice bool // after every statement: choose "no tick" / "tick"
-	Reopen     bool // event: clean shutdown (Session.Close) + restart
-	Crash      bool // event: crash + recovery (cost 1 against the crash bound)
-	FinalCrash bool // every fresh history ends with crash + double recovery + check
+	Name        string
+	Opt         worldOpt
+	Seed        string
+	Alpha       alphaOpt
+	Depth       int
+	TickChoice  bool // after every statement: choose "no tick" / "tick"
+	Reopen      bool // event: clean shutdown (Session.Close) + restart
+	Crash       bool // event: crash + recovery (cost 1 against the crash bound)
+	FinalCrash  bool // every fresh history ends with crash + double recovery + check
 	FinalReopen bool // every fresh history ends with clean shutdown + restart + check (pages re-read from disk)
-	Walk       bool // run the tree walker after every fresh event
-	OnlyWalk   bool // judge only the walker (and crashes/hangs of tree code); other oracles belong to other properties
+	Walk        bool // run the tree walker after every fresh event
+	OnlyWalk    bool // judge only the walker (and crashes/hangs of tree code); other oracles belong to other properties
 }
 
 // seeds are scripted set-ups producing interesting initial states.
